@@ -559,9 +559,9 @@ impl FormatSpec {
             Some(FormatType::Character) => match (self.sign, self.alternate_form) {
                 (Some(_), _) => Err(FormatSpecError::NotAllowed("Sign")),
                 (_, true) => Err(FormatSpecError::NotAllowed("Alternate form (#)")),
-                (_, _) => match num.to_u32() {
-                    Some(n) if n <= 0x10ffff => Ok(std::char::from_u32(n).unwrap().to_string()),
-                    Some(_) | None => Err(FormatSpecError::CodeNotInRange),
+                (_, _) => match num.to_u32().and_then(std::char::from_u32) {
+                    Some(c) => Ok(c.to_string()),
+                    None => Err(FormatSpecError::CodeNotInRange),
                 },
             },
             Some(FormatType::GeneralFormat(_))
